@@ -11,7 +11,9 @@ export GOFLAGS=-mod=mod GOPROXY=off GOSUMDB=off GOTOOLCHAIN=local GONOSUMDB='*' 
 export PATH=/opt/veriftools/go1.26.8/bin:$PATH
 unset GOWORK
 REPO="${VERIF_REPO:-/repo}"
-BIN="$HERE/bin/elpscheck"
+# VERIF_BIN: run a given, already built checker binary as it is (used by the long self-test runs so
+# that the checker sources can be edited meanwhile); never set by the registered commands
+BIN="${VERIF_BIN:-$HERE/bin/elpscheck}"
 
 build() {
   mkdir -p "$HERE/bin"
@@ -19,6 +21,7 @@ build() {
 }
 
 needs_build() {
+  [ -n "${VERIF_BIN:-}" ] && return 1
   [ ! -x "$BIN" ] && return 0
   [ -n "$(find "$HERE/checker" -name '*.go' -newer "$BIN" -print -quit)" ] && return 0
   return 1
